@@ -256,14 +256,41 @@ func okUpdate[K comparable, V any](d *Linked[K, V], a, b, c, x node.Node[K, V], 
 	return rep(d, a, b, x, nil, m) && free(d, old) && d.NotContains(old) && d.Contains(x)
 }
 
-//@ macro BREQ = a != nil && b != nil && c != nil && x != nil && a != b && a != c && b != c && x != a && x != b && x != c && m >= 0 && m <= 3 && ghost_hasSize() && ghost_hasExpLinks()
-//@ macro BFREE = a.Prev() == nil && a.Next() == nil && b.Prev() == nil && b.Next() == nil && c.Prev() == nil && c.Next() == nil && x.Prev() == nil && x.Next() == nil && a.PrevExp() == nil && a.NextExp() == nil && b.PrevExp() == nil && b.NextExp() == nil && c.PrevExp() == nil && c.NextExp() == nil && x.PrevExp() == nil && x.NextExp() == nil
 
 //@ func bBuild : C05
 //@   bounded lists of at most 3 nodes built by PushBack, or in reverse by PushFront
 //@   bodies
 //@   var x node.Node[K, V]
-//@   requires $BREQ && $BFREE
+//@   requires a != nil
+//@   requires b != nil
+//@   requires c != nil
+//@   requires x != nil
+//@   requires a != b
+//@   requires a != c
+//@   requires a != x
+//@   requires b != c
+//@   requires b != x
+//@   requires c != x
+//@   requires m >= 0
+//@   requires m <= 3
+//@   requires ghost_hasSize()
+//@   requires ghost_hasExpLinks()
+//@   requires a.Prev() == nil
+//@   requires a.Next() == nil
+//@   requires a.PrevExp() == nil
+//@   requires a.NextExp() == nil
+//@   requires b.Prev() == nil
+//@   requires b.Next() == nil
+//@   requires b.PrevExp() == nil
+//@   requires b.NextExp() == nil
+//@   requires c.Prev() == nil
+//@   requires c.Next() == nil
+//@   requires c.PrevExp() == nil
+//@   requires c.NextExp() == nil
+//@   requires x.Prev() == nil
+//@   requires x.Next() == nil
+//@   requires x.PrevExp() == nil
+//@   requires x.NextExp() == nil
 //@   modifies *
 //@   ensures [bounded:construction-yields-the-sequence] rep(result, a, b, c, nil, m)
 //@   ensures [bounded:construction-length-and-membership] result.Len() == m && (m >= 1 ==> result.Contains(a) && result.Head() == a)
@@ -272,14 +299,74 @@ func okUpdate[K comparable, V any](d *Linked[K, V], a, b, c, x node.Node[K, V], 
 //@ func bPush : C05
 //@   bounded lists of at most 3 nodes, one PushBack / PushFront after construction
 //@   bodies
-//@   requires $BREQ && $BFREE
+//@   requires a != nil
+//@   requires b != nil
+//@   requires c != nil
+//@   requires x != nil
+//@   requires a != b
+//@   requires a != c
+//@   requires a != x
+//@   requires b != c
+//@   requires b != x
+//@   requires c != x
+//@   requires m >= 0
+//@   requires m <= 3
+//@   requires ghost_hasSize()
+//@   requires ghost_hasExpLinks()
+//@   requires a.Prev() == nil
+//@   requires a.Next() == nil
+//@   requires a.PrevExp() == nil
+//@   requires a.NextExp() == nil
+//@   requires b.Prev() == nil
+//@   requires b.Next() == nil
+//@   requires b.PrevExp() == nil
+//@   requires b.NextExp() == nil
+//@   requires c.Prev() == nil
+//@   requires c.Next() == nil
+//@   requires c.PrevExp() == nil
+//@   requires c.NextExp() == nil
+//@   requires x.Prev() == nil
+//@   requires x.Next() == nil
+//@   requires x.PrevExp() == nil
+//@   requires x.NextExp() == nil
 //@   modifies *
 //@   ensures [bounded:push-appends-or-prepends] okPush(result, atFront, a, b, c, x, m)
 
 //@ func bDelete : C05
 //@   bounded lists of at most 3 nodes, Delete of any member or of an outside node
 //@   bodies
-//@   requires $BREQ && $BFREE && i >= 0 && i <= 3
+//@   requires a != nil
+//@   requires b != nil
+//@   requires c != nil
+//@   requires x != nil
+//@   requires a != b
+//@   requires a != c
+//@   requires a != x
+//@   requires b != c
+//@   requires b != x
+//@   requires c != x
+//@   requires m >= 0
+//@   requires m <= 3
+//@   requires ghost_hasSize()
+//@   requires ghost_hasExpLinks()
+//@   requires a.Prev() == nil
+//@   requires a.Next() == nil
+//@   requires a.PrevExp() == nil
+//@   requires a.NextExp() == nil
+//@   requires b.Prev() == nil
+//@   requires b.Next() == nil
+//@   requires b.PrevExp() == nil
+//@   requires b.NextExp() == nil
+//@   requires c.Prev() == nil
+//@   requires c.Next() == nil
+//@   requires c.PrevExp() == nil
+//@   requires c.NextExp() == nil
+//@   requires x.Prev() == nil
+//@   requires x.Next() == nil
+//@   requires x.PrevExp() == nil
+//@   requires x.NextExp() == nil
+//@   requires i >= 0
+//@   requires i <= 3
 //@   modifies *
 //@   ensures [bounded:delete-removes-exactly-that-node] okDelete(result, a, b, c, x, m, i)
 
@@ -287,23 +374,112 @@ func okUpdate[K comparable, V any](d *Linked[K, V], a, b, c, x node.Node[K, V], 
 //@   bounded lists of at most 3 nodes
 //@   bodies
 //@   var x node.Node[K, V]
-//@   requires $BREQ && $BFREE
+//@   requires a != nil
+//@   requires b != nil
+//@   requires c != nil
+//@   requires x != nil
+//@   requires a != b
+//@   requires a != c
+//@   requires a != x
+//@   requires b != c
+//@   requires b != x
+//@   requires c != x
+//@   requires m >= 0
+//@   requires m <= 3
+//@   requires ghost_hasSize()
+//@   requires ghost_hasExpLinks()
+//@   requires a.Prev() == nil
+//@   requires a.Next() == nil
+//@   requires a.PrevExp() == nil
+//@   requires a.NextExp() == nil
+//@   requires b.Prev() == nil
+//@   requires b.Next() == nil
+//@   requires b.PrevExp() == nil
+//@   requires b.NextExp() == nil
+//@   requires c.Prev() == nil
+//@   requires c.Next() == nil
+//@   requires c.PrevExp() == nil
+//@   requires c.NextExp() == nil
+//@   requires x.Prev() == nil
+//@   requires x.Next() == nil
+//@   requires x.PrevExp() == nil
+//@   requires x.NextExp() == nil
 //@   modifies *
 //@   ensures [bounded:popfront-removes-the-head] okPopFront(r0, r1, a, b, c, m)
 
 //@ func bMove : C05
-//@   thorough-only
 //@   bounded lists of at most 3 nodes, MoveToFront / MoveToBack of any member
 //@   bodies
 //@   var x node.Node[K, V]
-//@   requires $BREQ && $BFREE && i >= 0 && i < m
+//@   requires a != nil
+//@   requires b != nil
+//@   requires c != nil
+//@   requires x != nil
+//@   requires a != b
+//@   requires a != c
+//@   requires a != x
+//@   requires b != c
+//@   requires b != x
+//@   requires c != x
+//@   requires m >= 0
+//@   requires m <= 3
+//@   requires ghost_hasSize()
+//@   requires ghost_hasExpLinks()
+//@   requires a.Prev() == nil
+//@   requires a.Next() == nil
+//@   requires a.PrevExp() == nil
+//@   requires a.NextExp() == nil
+//@   requires b.Prev() == nil
+//@   requires b.Next() == nil
+//@   requires b.PrevExp() == nil
+//@   requires b.NextExp() == nil
+//@   requires c.Prev() == nil
+//@   requires c.Next() == nil
+//@   requires c.PrevExp() == nil
+//@   requires c.NextExp() == nil
+//@   requires x.Prev() == nil
+//@   requires x.Next() == nil
+//@   requires x.PrevExp() == nil
+//@   requires x.NextExp() == nil
+//@   requires i >= 0
+//@   requires i < m
 //@   modifies *
 //@   ensures [bounded:move-keeps-the-other-nodes-in-order] okMove(result, toFront, a, b, c, m, i)
 
 //@ func bUpdate : C05
-//@   thorough-only
 //@   bounded lists of at most 3 nodes, UpdateNode replacing any member by an outside node
 //@   bodies
-//@   requires $BREQ && $BFREE && i >= 0 && i < m
+//@   requires a != nil
+//@   requires b != nil
+//@   requires c != nil
+//@   requires x != nil
+//@   requires a != b
+//@   requires a != c
+//@   requires a != x
+//@   requires b != c
+//@   requires b != x
+//@   requires c != x
+//@   requires m >= 0
+//@   requires m <= 3
+//@   requires ghost_hasSize()
+//@   requires ghost_hasExpLinks()
+//@   requires a.Prev() == nil
+//@   requires a.Next() == nil
+//@   requires a.PrevExp() == nil
+//@   requires a.NextExp() == nil
+//@   requires b.Prev() == nil
+//@   requires b.Next() == nil
+//@   requires b.PrevExp() == nil
+//@   requires b.NextExp() == nil
+//@   requires c.Prev() == nil
+//@   requires c.Next() == nil
+//@   requires c.PrevExp() == nil
+//@   requires c.NextExp() == nil
+//@   requires x.Prev() == nil
+//@   requires x.Next() == nil
+//@   requires x.PrevExp() == nil
+//@   requires x.NextExp() == nil
+//@   requires i >= 0
+//@   requires i < m
 //@   modifies *
 //@   ensures [bounded:update-transplants-in-place] okUpdate(result, a, b, c, x, m, i)
